@@ -13,7 +13,11 @@ from . import core, strs
 from .core import SymBool, SymBytes, SymInt, SymReal, SymTable, Unsupported
 from .strs import SymStr, SymText
 
-_SIZES = {"!H": 2, "!Q": 8, "!I": 4, "!B": 1, ">H": 2, ">Q": 8, ">I": 4, "B": 1}
+_SIZES = {"!H": 2, "!Q": 8, "!I": 4, "!B": 1, ">H": 2, ">Q": 8, ">I": 4, "B": 1, "<H": 2, "<Q": 8, "<I": 4, "<B": 1}
+
+
+def _order(fmt):
+    return "little" if fmt[0] == "<" else "big"
 
 
 class StructShim:
@@ -36,7 +40,7 @@ class StructShim:
             if not isinstance(v, SymInt):
                 return _struct.pack(fmt, v)
         try:
-            return v.to_bytes(n, "big")
+            return v.to_bytes(n, _order(fmt))
         except OverflowError:
             raise _struct.error("argument out of range")
 
@@ -51,7 +55,7 @@ class StructShim:
         n = _SIZES[fmt]
         if len(data) != n:
             raise _struct.error("unpack requires a buffer of %d bytes" % n)
-        return (IntShim.from_bytes(data, "big"),)
+        return (IntShim.from_bytes(data, _order(fmt)),)
 
 
 class _IntMeta(type):
